@@ -258,8 +258,13 @@ func init() {
 			}
 			for _, sp := range c10Programs(tier) {
 				b := bound
-				if sp.Refresh != "none" && tier != "thorough" {
+				if sp.Refresh != "none" {
 					b = 1
+				}
+				if tier == "thorough" && sp.Refresh != "none" && len(sp.Clients) <= 3 {
+					// two client threads (plus the refresher): one deviation deeper under the first base strategy
+					items = append(items, specItemsMixed("C10", sp, 2, 1, []int{mcrt.StratFIFO, mcrt.StratNewest}, nil, c10Oracle)...)
+					continue
 				}
 				items = append(items, specItems("C10", sp, b, []int{mcrt.StratFIFO, mcrt.StratNewest}, nil, c10Oracle)...)
 			}
